@@ -289,7 +289,7 @@ Proof.
   - intros ? w2 (B1 & B2 & B3). apply hoareE_ret. apply frame_result; auto; [eapply K_trans|eapply TmR_trans|eapply E_trans| ]; eauto. discriminate.
 Qed.
 
-Lemma rtr_sync_spec fuel w : Inv w -> hoareE (rtr_sync fuel) w (sync_result w) (sync_interrupted w).
+Lemma rtr_sync_inv_spec fuel w : Inv w -> hoareE (rtr_sync fuel) w (sync_result w) (sync_interrupted w).
 Proof.
   intros HI. unfold rtr_sync.
   eapply hoareE_bind2; [apply (hoareE_of_rel3 K TmR E); [apply sync_first_K|apply sync_first_T|apply sync_first_E]| |].
